@@ -366,6 +366,9 @@ func (ex *Exec) zero(t types.Type) Value {
 	return nil
 }
 
+// RuneSeq is []rune(s) for a string with opaque chunks: only len() is supported.
+type RuneSeq struct{ s *StrV }
+
 type FloatV float64
 type ChanV struct{}
 
